@@ -117,7 +117,7 @@ func (h *httpHandler) ServeHTTP(w http.ResponseWriter, r *http.Request) {
 		current, err := output.Current, output.Error
 
 		if err != nil {
-			if ErrorCause(err) == context.Canceled {
+			if ErrorCause(err) == context.Canceled && ctx.Err() != nil {
 				return nil, err
 			}
 
